@@ -24,7 +24,7 @@ func init() {
 	register(&propDef{
 		ID: "C18",
 		Meta: propMeta{
-			Explanation: "Decides structural necessary conditions of CFB validity in lib/comdoc, lib/redblack and the MSI digesters (nothing is executed): (R18a) the three walkers hashMsiDir, prehashMsiDir and msiToTarDir sort the ListDir result with sortMsiFiles before iterating, recurse into storages, and put the storage UID after the children; the direct digesters and DigestMsiTar skip the same two stream names, which are the names InsertMSISignature writes; (R18b) layout: Header encodes to 512 bytes and RawDirEnt to 128, every `SectorSize / K` uses K=128 for directory entries and K=4 for sector ids, the byte ranges prehashMsiDirent cuts out of an encoded entry are exactly the spans of StreamSize, UserFlags and CreateTime+ModifyTime, all binary I/O of the package is little-endian, and Close/writeShortSAT/writeDirStream/writeMSAT store every header count and chain head from the table they just wrote; (R18c) chains: every chain builder stores the end-of-chain marker after its loop on every success path (the empty chain excepted), no table is indexed by the end-of-chain sentinel on the zero-iteration path, every index of a sector table by a sector id on the writer side is preceded by a comparison of that id (ids produced by the allocator excepted), and the chain-following loops of the package are bounded (shared with C11 R11d); (R18d) red-black rebuild: a node can become red without an existing red node (new nodes are inserted red), Insert blackens the root, rebuildTree stores colour, both children (-1 for none) and the storage root, and the ordering function compares equal-length names through an upper-casing function as MS-CFB 2.6.4 requires; (R18e) the mini-stream cutoff is the same predicate `size < MinStdStreamSize` at every site and selects the short table on its true side; (R18f) lib/comdoc keeps no pointer to an element of a slice it grows with append (Files, SAT, SSAT, MSAT) in a struct field (zero instances today, positive control testdata/ctl/elemptr); R18a also requires DigestMsiTar to read every tar member through the tar reader itself, without a length limit.",
+			Explanation: "Decides structural necessary conditions of CFB validity in lib/comdoc, lib/redblack and the MSI digesters (nothing is executed): (R18a) the three walkers hashMsiDir, prehashMsiDir and msiToTarDir sort the ListDir result with sortMsiFiles before iterating, recurse into storages, and put the storage UID after the children; the direct digesters and DigestMsiTar skip the same two stream names, which are the names InsertMSISignature writes; (R18b) layout: Header encodes to 512 bytes and RawDirEnt to 128, every `SectorSize / K` uses K=128 for directory entries and K=4 for sector ids, the byte ranges prehashMsiDirent cuts out of an encoded entry are exactly the spans of StreamSize, UserFlags and CreateTime+ModifyTime, all binary I/O of the package is little-endian, and Close/writeShortSAT/writeDirStream/writeMSAT store every header count and chain head from the table they just wrote; (R18c) chains: every chain builder stores the end-of-chain marker after its loop on every success path (the empty chain excepted), no table is indexed by the end-of-chain sentinel on the zero-iteration path, every index of a sector table by a sector id on the writer side is preceded by a comparison of that id (ids produced by the allocator excepted), and the chain-following loops of the package are bounded (shared with C11 R11d); (R18d) red-black rebuild: a node can become red without an existing red node (new nodes are inserted red), Insert blackens the root, rebuildTree stores colour, both children (-1 for none) and the storage root, and the ordering function compares equal-length names through an upper-casing function as MS-CFB 2.6.4 requires; (R18e) the mini-stream cutoff is the same predicate `size < MinStdStreamSize` at every site and selects the short table on its true side; (R18f) lib/comdoc keeps no pointer to an element of a slice it grows with append (Files, SAT, SSAT, MSAT) in a struct field (zero instances today, positive control testdata/ctl/elemptr); (R18g) Close reads the end of the last used sector off the allocation table only after every step that can still allocate a sector, so a table sector placed last is not cut off; R18a also requires DigestMsiTar to read every tar member through the tar reader itself, without a length limit.",
 			NotDecided:  "validity of a concrete output file: chains in bounds, acyclic and mutually disjoint, allocation tables and header counts agreeing with the file length, the directory tree being correctly ordered for the actual names (only the comparator's shape is checked), DIFAT growth arithmetic, equality of the tar-stream digest and the direct digest on a concrete MSI (only the walkers' agreement is checked).",
 			Assumptions: []string{"encoding/binary encodes fixed-size structs field by field without padding", "MS-CFB 2.6.4 (name ordering) and 2.6.1 (entry layout) as transcribed in the frozen tables"},
 		},
@@ -55,6 +55,7 @@ func runC18(c *Ctx) {
 	c18Cutoff(c, fns)
 	c18ElemPtr(c)
 	c18TarWhole(c)
+	c18Truncate(c, fns)
 }
 
 // ------------------------------------------------------------------------------ R18a
@@ -901,6 +902,9 @@ func c18Cutoff(c *Ctx, fns []*ssa.Function) {
 				shortSide, longSide := ifb.Succs[0], ifb.Succs[1]
 				uses := func(b *ssa.BasicBlock, key string) bool {
 					for _, in := range b.Instrs {
+						if _, isPhi := in.(*ssa.Phi); isPhi {
+							continue // a join that merely merges the two sides' tables
+						}
 						for _, op := range in.Operands(nil) {
 							if *op != nil && p.memKey(*op) == key {
 								return true
@@ -912,7 +916,16 @@ func c18Cutoff(c *Ctx, fns []*ssa.Function) {
 					}
 					return false
 				}
-				okSel := uses(shortSide, "f:lib/comdoc.ComDoc.SSAT") && !uses(shortSide, "f:lib/comdoc.ComDoc.SAT") && uses(longSide, "f:lib/comdoc.ComDoc.SAT") && !uses(longSide, "f:lib/comdoc.ComDoc.SSAT")
+				// `table := r.SAT; if short { table = r.SSAT }`: the long side's table is the default taken before the test
+				satBefore := false
+				for _, d := range fn.Blocks {
+					if d == ifb || d.Dominates(ifb) {
+						if uses(d, "f:lib/comdoc.ComDoc.SAT") {
+							satBefore = true
+						}
+					}
+				}
+				okSel := uses(shortSide, "f:lib/comdoc.ComDoc.SSAT") && !uses(shortSide, "f:lib/comdoc.ComDoc.SAT") && (uses(longSide, "f:lib/comdoc.ComDoc.SAT") || satBefore) && !uses(longSide, "f:lib/comdoc.ComDoc.SSAT")
 				c.Check(okSel, "R18e", key+" selects the table", p.Pos(bo.Pos()), "short side uses SSAT, the other SAT", "the branch for streams below the cutoff does not use the short-sector table (or the other branch does)")
 			}
 		}
@@ -1077,5 +1090,145 @@ func c18TarWhole(c *Ctx) {
 	}
 	if n < 2 {
 		c.Undecided("R18a", "DigestMsiTar member reads", p.Pos(fn.Pos()), fmt.Sprintf("only %d reads found (2 confirmed by reading)", n))
+	}
+}
+
+// ------------------------------------------------------------------------------ R18g
+
+// c18Truncate: the file is cut after the last sector in use. Where that is is read off the
+// sector allocation table, so the reading has to come after every step of Close that can
+// still allocate a sector (the directory stream, the short table, the SAT/MSAT sectors
+// themselves); otherwise a table sector allocated at the very end of the file is cut off
+// and the header points past EOF.
+func c18Truncate(c *Ctx, fns []*ssa.Function) {
+	p := c.P
+	c.Rule("R18g", "Close reads the end of the last used sector off the allocation table after every step that can allocate", 1)
+	const satKey = "f:lib/comdoc.ComDoc.SAT"
+	inPkg := map[*ssa.Function]bool{}
+	for _, fn := range fns {
+		inPkg[fn] = true
+	}
+	writes := map[*ssa.Function]bool{}
+	reads := map[*ssa.Function]bool{}
+	isElemLoad := func(in ssa.Instruction) bool {
+		u, ok := in.(*ssa.UnOp)
+		if !ok || u.Op != token.MUL {
+			return false
+		}
+		ia, ok := u.X.(*ssa.IndexAddr)
+		return ok && p.memKey(ia) == satKey
+	}
+	for _, fn := range fns {
+		for _, b := range fn.Blocks {
+			for _, in := range b.Instrs {
+				if st, ok := in.(*ssa.Store); ok && p.memKey(st.Addr) == satKey {
+					writes[fn] = true
+				}
+				if isElemLoad(in) {
+					reads[fn] = true
+				}
+			}
+		}
+	}
+	for changed := true; changed; {
+		changed = false
+		for _, fn := range fns {
+			for _, b := range fn.Blocks {
+				for _, in := range b.Instrs {
+					ci, ok := in.(ssa.CallInstruction)
+					if !ok {
+						continue
+					}
+					sc := ci.Common().StaticCallee()
+					if sc == nil || !inPkg[sc] {
+						continue
+					}
+					if writes[sc] && !writes[fn] {
+						writes[fn], changed = true, true
+					}
+					if reads[sc] && !reads[fn] {
+						reads[fn], changed = true, true
+					}
+				}
+			}
+		}
+	}
+	cl := p.Func("lib/comdoc.(*ComDoc).Close")
+	if cl == nil {
+		c.Undecided("R18g", "(*ComDoc).Close", "-", "function not found")
+		return
+	}
+	var truncs, muts, rds []ssa.Instruction
+	for _, b := range cl.Blocks {
+		for _, in := range b.Instrs {
+			if isElemLoad(in) {
+				rds = append(rds, in)
+			}
+			ci, ok := in.(ssa.CallInstruction)
+			if !ok {
+				continue
+			}
+			com := ci.Common()
+			if (com.IsInvoke() && com.Method.Name() == "Truncate") || (com.StaticCallee() != nil && com.StaticCallee().Name() == "Truncate" && !inPkg[com.StaticCallee()]) {
+				truncs = append(truncs, in)
+				continue
+			}
+			if sc := com.StaticCallee(); sc != nil && inPkg[sc] {
+				if writes[sc] {
+					muts = append(muts, in)
+				} else if reads[sc] {
+					rds = append(rds, in)
+				}
+			}
+		}
+	}
+	if len(truncs) == 0 {
+		c.PassTrivial("R18g", "(*ComDoc).Close truncation", p.Pos(cl.Pos()), "Close does not truncate the file")
+		return
+	}
+	for i, t := range truncs {
+		key := fmt.Sprintf("(*ComDoc).Close Truncate#%d", i+1)
+		args := t.(ssa.CallInstruction).Common().Args
+		arg := args[len(args)-1]
+		// the reads the truncation point hangs on: by data, or through a branch condition
+		var feeding []ssa.Instruction
+		for _, r := range rds {
+			rv, isV := r.(ssa.Value)
+			if !isV {
+				continue
+			}
+			feeds := dependsOn(arg, func(x ssa.Value) bool { return x == rv })
+			if !feeds {
+				for _, b := range cl.Blocks {
+					if ifi, ok := b.Instrs[len(b.Instrs)-1].(*ssa.If); ok && dependsOn(ifi.Cond, func(x ssa.Value) bool { return x == rv }) && reachableAfter(cl, ifi, t, nil, nil) {
+						feeds = true
+					}
+				}
+			}
+			if feeds {
+				feeding = append(feeding, r)
+			}
+		}
+		if len(feeding) == 0 {
+			c.Undecided("R18g", key, p.Pos(t.Pos()), "the truncation offset does not hang on any read of the sector allocation table")
+			continue
+		}
+		bad := ""
+		for _, m := range muts {
+			if !reachableAfter(cl, m, t, nil, nil) {
+				continue
+			}
+			fresh := false
+			for _, r := range feeding {
+				if reachableAfter(cl, m, r, nil, nil) && reachableAfter(cl, r, t, nil, nil) {
+					fresh = true
+				}
+			}
+			if !fresh {
+				bad = fmt.Sprintf("%s at %s", p.calleeName(m.(ssa.CallInstruction).Common()), p.Pos(m.Pos()))
+			}
+		}
+		c.Check(bad == "", "R18g", key, p.Pos(t.Pos()), fmt.Sprintf("%d table reads feed the offset, all after the %d allocating steps", len(feeding), len(muts)),
+			"the truncation offset is read off the allocation table before "+bad+", which can still allocate a sector: a table sector placed after all data is cut off and the header then lists a sector beyond the end of the file")
 	}
 }
